@@ -137,6 +137,8 @@ SNIPPETS = [
     "(lambda x: (np.abs(x, out=x), x)[1])(np.array([-1.0, 2.0, -3.0]))",
     "(lambda x, e: (np.divide(x[1:], e, out=x[1:], where=e != 0), x)[1])(np.array([8.0, 6.0, 4.0, 9.0]), np.array([2.0, 0.0, 3.0]))",
     "(lambda x: (np.add(x, 1, x), x)[1])(np.array([1.0, 2.0]))", "np.multiply(a, b, dtype=None)",
+    "np.round(np.array([0.5, 1.5, 2.5, -0.5, -1.5, 2.4, 2.6, np.nan]))", "np.round(np.array([1.0004, 0.2496, 1.0005, -2.0015, 7.0]), 3)",
+    "np.around(np.array([12.345, 12.355]), 1)", "np.rint(np.array([0.5, 1.5, -2.5, 3.2]))", "np.round(am, 1)",
     "np.ravel(np.array([[1.0, 2.0], [3.0, 4.0]]))", "np.union1d(np.flatnonzero(a > 1), np.flatnonzero(b > 1))",
     "np.union1d(np.array([3, 1]), np.array([2, 1]))", "(lambda x: (np.put(x, np.array([2, 0]), np.array([7.0, 8.0])), x)[1])(np.zeros(4))",
     "(lambda x: (np.put(x, [1, 3, 0], [5]), x)[1])(np.full((4,), 2, dtype='uint8'))",
